@@ -82,6 +82,10 @@ func runAndCheck(t *testing.T, pd *PropDef, sc *Scenario, tape []int32) (*RunRes
 	}
 	tr := BuildTruth(sc, res.Log)
 	var own, cross []Violation
+	if res.Out.StepLimit {
+		// the run was cut off by the step budget: nothing is judged (counted in evidence)
+		return res, tr, nil, nil
+	}
 	if res.LoadErr == "" {
 		own = pd.Check(sc, res, tr)
 	}
@@ -337,7 +341,14 @@ func sampleOf(sc *Scenario, res *RunResult, tr *Truth) json.RawMessage {
 			break
 		}
 	}
-	b, _ := json.Marshal(map[string]any{"seed": sc.Seed, "arm": sc.Arm, "yaml": sc.Project.Render("@TMP@"), "clients": sc.Clients, "event_log_prefix": lines, "steps": res.Out.Steps})
+	m := map[string]any{"seed": sc.Seed, "arm": sc.Arm, "clients": sc.Clients, "event_log_prefix": lines, "steps": res.Out.Steps}
+	if sc.Project != nil {
+		m["yaml"] = sc.Project.Render("@TMP@")
+	}
+	if sc.LogBuf != nil {
+		m["logbuf"] = sc.LogBuf
+	}
+	b, _ := json.Marshal(m)
 	return b
 }
 
@@ -395,6 +406,14 @@ func TestReplay(t *testing.T) {
 			if res.Log.Events[i].Kind != "obs.snap" {
 				fmt.Println(res.Log.Events[i].String())
 			}
+		}
+	}
+	if os.Getenv("VERIF_VERBOSE") != "" {
+		for _, n := range sortedNames(res.FinalLogs) {
+			fmt.Printf("FINAL-LOG %s (%d lines): %q\n", n, len(res.FinalLogs[n]), clipList(res.FinalLogs[n], 12))
+		}
+		for _, n := range sortedNames(res.Files) {
+			fmt.Printf("FILE %s (%d bytes): %q\n", n, len(res.Files[n]), clipStr(res.Files[n], 300))
 		}
 	}
 	hash := fmt.Sprintf("%016x", res.Hash)
